@@ -180,3 +180,146 @@ func VH_C15_PartitionWatcher() {
 	g.close()
 	vhReach("c15-partition-watcher")
 }
+
+// ConsumerGroup.run / nextGeneration against a scripted coordinator (injected through config.connect), serial
+// schedule. firstJoin: outcome of the first joinGroup call (0 ok, 1 RebalanceInProgress, 2 another Kafka error with
+// a symbolic code, 3 transport error). event: how the first generation ends (0 heartbeat failure, 1 a started
+// function returns, 2 the group is closed).
+func VH_C15_GroupRun(firstJoin, event int) {
+	vhConcreteClock(true)
+	co := &vhCoordinator{}
+	gen1, gen2 := vhInt32("generation1"), vhInt32("generation2")
+	code := vhInt16("join_error_code")
+	vhAssume(vhAll(code > 0, code != int16(RebalanceInProgress)))
+	committed := vhInt64("committed_offset")
+	vhAssume(committed >= -1)
+	okJoins := 0
+	co.joinOutcome = func(call int) (joinGroupResponse, error) {
+		if call == 1 {
+			switch firstJoin {
+			case 1:
+				return joinGroupResponse{ErrorCode: int16(RebalanceInProgress)}, nil
+			case 2:
+				return joinGroupResponse{ErrorCode: code}, nil
+			case 3:
+				return joinGroupResponse{}, vhErrCoordinator
+			}
+		}
+		okJoins++
+		id := gen1
+		if okJoins > 1 {
+			id = gen2
+		}
+		return joinGroupResponse{GenerationID: id, MemberID: "m1", LeaderID: "someone-else", GroupProtocol: "range"}, nil
+	}
+	co.syncResp = syncGroupResponseV0{MemberAssignments: groupAssignment{Version: 1, Topics: map[string][]int32{"t": {0}}}.bytes()}
+	co.fetchResp = offsetFetchResponseV1{Responses: []offsetFetchResponseV1Response{{Topic: "t", PartitionResponses: []offsetFetchResponseV1PartitionResponse{{Partition: 0, Offset: committed}}}}}
+	heartbeatFails := false
+	co.heartbeatErr = func(call int) error {
+		if heartbeatFails {
+			return vhErrCoordinator
+		}
+		return nil
+	}
+	cfg := ConsumerGroupConfig{ID: "g", Brokers: []string{"vh:9092"}, Topics: []string{"t"}, HeartbeatInterval: time.Second,
+		JoinGroupBackoff: 5 * time.Second, StartOffset: FirstOffset}
+	cfg.connect = func(*Dialer, ...string) (coordinator, error) { return co, nil }
+	cg, nerr := NewConsumerGroup(cfg)
+	vhAssert(nerr == nil, "group-created")
+	ctx := context.Background()
+
+	g, err := cg.Next(ctx)
+	if firstJoin != 0 {
+		vhAssert(g == nil && err != nil, "failed-join-is-reported-by-next")
+		switch firstJoin {
+		case 1:
+			vhAssert(errors.Is(err, RebalanceInProgress), "join-error-is-the-coordinators")
+		case 2:
+			vhAssert(errors.Is(err, Error(code)), "join-error-is-the-coordinators")
+		case 3:
+			vhAssert(errors.Is(err, vhErrCoordinator), "join-error-is-the-transports")
+		}
+		vhSettle()
+		if firstJoin != 1 {
+			vhAssert(co.joins == 1, "failed-join-is-not-retried-before-the-back-off")
+			vhAssert(vhTimers() > 0, "back-off-timer-armed")
+		}
+		g, err = cg.Next(ctx) // the caller blocks: time passes, the back-off elapses, the join is retried
+	}
+	vhAssert(g != nil && err == nil, "next-returns-a-generation-after-a-successful-join")
+	if g == nil {
+		return
+	}
+	vhAssert(vhAll(g.ID == gen1, g.MemberID == "m1", g.GroupID == "g"), "generation-identity-is-the-coordinators")
+	as := g.Assignments["t"]
+	vhAssert(len(as) == 1 && as[0].ID == 0, "assignment-is-the-synced-one")
+	if len(as) == 1 {
+		if committed >= 0 {
+			vhAssert(as[0].Offset == committed, "assignment-starts-at-the-committed-offset")
+		} else {
+			vhAssert(as[0].Offset == FirstOffset, "assignment-starts-at-StartOffset-without-a-commit")
+		}
+	}
+
+	// a started function that notices the cancellation and then takes its time to return
+	cancelled, exited := false, false
+	release := make(chan struct{})
+	g.Start(func(c context.Context) {
+		<-c.Done()
+		cancelled = true
+		<-release
+		exited = true
+	})
+	quit := make(chan struct{})
+	g.Start(func(c context.Context) {
+		select {
+		case <-c.Done():
+		case <-quit:
+		}
+	})
+	vhSettle()
+	vhAssert(!cancelled, "context-not-cancelled-while-the-generation-lives")
+	closeReturned := false
+	switch event {
+	case 0:
+		heartbeatFails = true
+		vhFireNext() // the heartbeat ticker
+	case 1:
+		close(quit)
+	case 2:
+		go func() { cg.Close(); closeReturned = true }()
+	}
+	vhSettle()
+	vhAssert(cancelled, "function-context-cancelled-as-soon-as-the-generation-ends")
+	var g2 *Generation
+	var err2 error
+	nextReturned := false
+	go func() { g2, err2 = cg.Next(ctx); nextReturned = true }()
+	vhSettle()
+	vhAssert(!(nextReturned && g2 != nil), "next-returns-no-generation-while-a-function-of-the-previous-one-runs")
+	vhAssert(!closeReturned, "close-waits-for-the-started-functions")
+	close(release)
+	vhSettle()
+	vhSettle()
+	vhAssert(exited, "function-returns")
+	if event == 2 {
+		vhAssert(closeReturned, "close-returns-after-the-functions-returned")
+		vhAssert(nextReturned && g2 == nil && errors.Is(err2, ErrGroupClosed), "next-on-a-closed-group-reports-ErrGroupClosed")
+		left := false
+		for _, c := range co.calls {
+			if c == "leaveGroup:m1" {
+				left = true
+			}
+		}
+		vhAssert(left, "close-sends-LeaveGroup-for-the-current-member-id")
+	} else {
+		vhAssert(nextReturned && g2 != nil && err2 == nil, "a-new-generation-follows")
+		if g2 != nil {
+			vhAssert(vhAll(g2.ID == gen2, g2.MemberID == "m1"), "second-generation-identity")
+		}
+		vhAssert(len(co.joinMembers) >= 2 && co.joinMembers[len(co.joinMembers)-1] == "m1", "member-id-is-kept-across-generations")
+		go func() { cg.Close() }()
+		vhSettle()
+	}
+	vhReach("c15-group-run")
+}
